@@ -201,6 +201,9 @@ class Contract:
         note="",
         bounded=None,
         max_paths=4000,
+        ghosts=None,
+        ghost_names=(),
+        native_patch=None,
     ):
         self.target = target
         self.fn = fn if fn is not None else resolve_target(target)
@@ -218,6 +221,9 @@ class Contract:
         self.note = note
         self.bounded = bounded  # text: structural bound if the contract is only proved(<=N)
         self.max_paths = max_paths
+        self.ghosts = dict(ghosts or {})  # ghost inputs made before the parameters (not passed to the function)
+        self.ghost_names = list(ghost_names)  # names in ctx.ghost (set by effects) that clauses/replay may read
+        self.native_patch = native_patch  # f(native ghosts) -> context manager installing the externals for replay
 
 
 class Registry:
@@ -482,11 +488,16 @@ def verify(c: Contract, reg: Registry, want_smt_sample=False):
             interp.inline_only.add(f)
         symenv = ctx.ghost.setdefault("symenv", models.SymEnv())
         args = {}
+        for name, t in c.ghosts.items():
+            ctx.ghost[name] = t.make(interp, name)
         for name, t in c.params.items():
             args[name] = t.make(interp, name)
         ctx.inputs = args
         env = _env_for(reg, c, interp, args)
         env.set("env", symenv)
+        for name in c.ghosts:
+            env.set(name, ctx.ghost[name])
+        env.set("ghost", models.BuiltinModel(lambda n: ctx.ghost[n]))
         # snapshot of mutable inputs for old(...)
         for r in c.requires:
             v = interp.eval(_parse(r), env)
@@ -608,6 +619,7 @@ def replay(c: Contract, reg: Registry, vc: VC):
     try:
         cz = Concretizer(interp, model)
         native = {k: cz.conc(v) for k, v in ctx.inputs.items()}
+        cz.ghosts = {k: cz.conc(ctx.ghost[k]) for k in list(c.ghosts) + list(c.ghost_names) if k in ctx.ghost}
     except (EngineError, PathAbort, Exception) as e:  # noqa: BLE001
         return "no-input", dict(reason=f"inputs not constructible: {type(e).__name__}: {e}", model=str(model)[:2000])
     return run_native(c, reg, native, vc.clause, cz)
@@ -620,9 +632,15 @@ def run_native(c, reg, native, clause_text, cz=None):
     nenv = models.NativeEnv(cz.env_sym if cz else None, cz.env_symi if cz else None,
                             cz.model if cz else None, cz.interp.ctx.ghost.get("symenv") if cz else None)
     call_args = copy.deepcopy(native) if c.deepcopy_inputs else native
+    ghosts = getattr(cz, "ghosts", {}) if cz else {}
+    info["ghosts"] = {k: _show(v) for k, v in ghosts.items()}
+    import contextlib
+
+    cm = c.native_patch(ghosts) if c.native_patch else contextlib.nullcontext()
     try:
         fn = c.fn
-        res = fn(*call_args.values())
+        with cm:
+            res = fn(*call_args.values())
         info["result"] = _show(res)
         raised = None
     except Exception as e:  # noqa: BLE001
@@ -640,6 +658,9 @@ def run_native(c, reg, native, clause_text, cz=None):
         env.set(k, v)
     env.set("env", nenv)
     env.set("result", res)
+    for k, v in ghosts.items():
+        env.set(k, v)
+    env.set("ghost", models.BuiltinModel(lambda n: ghosts[n]))
     try:
         v = it.eval(_parse(clause_text), env)
     except PyRaise as pr:
